@@ -142,7 +142,7 @@ template <size_t N, class T> struct PThunk {
         }
     }
 };
-static FX_NOINLINE void run_pred(fx::Ctx& fx, const PJob& j) {
+static FX_NOINLINE void run_pred(fx::Ctx& fx, const PJob& j, int which_set) {
     fx.arena[1].paint();
     bool* m = (bool*)fx.arena[1].place_mid(j.sizeofB, 64);
     unsigned char* ap = fx.arena[1].lo + 256;
@@ -155,6 +155,8 @@ static FX_NOINLINE void run_pred(fx::Ctx& fx, const PJob& j) {
         const bool all = cnt == n, any = cnt > 0;
         const int expect[9] = {all, any, !any, all, any, !any, cnt == 0, any, !any};
         for (int w = 0; w < 9; ++w) {
+            const bool is_none_of = (w == 2 || w == 5 || w == 8);
+            if ((which_set == 1) != is_none_of) continue;     // none_of has its own case identities
             fx.pt("mask=%lld,pred=%lld", (long long)bits, (long long)w);
             int got = -1; if (!fx.run([&] { got = j.call(m, ap, w); })) continue;
             static const char* nm[9] = {"all_of(mask)", "any_of(mask)", "none_of(mask)", "all_of(a>0)", "any_of(a>0)", "none_of(a>0)", "all_of(!(a>0))", "any_of(a>0&&a<5)", "none_of(a>0||a<-5)"};
@@ -162,7 +164,7 @@ static FX_NOINLINE void run_pred(fx::Ctx& fx, const PJob& j) {
         }
     }
 }
-template <size_t N, class T> static inline void pred(fx::Ctx& fx) { PJob j{N, sizeof(Tensor<bool, N>), sizeof(Tensor<T, N>), sizeof(T), &PThunk<N, T>::call}; run_pred(fx, j); }
+template <size_t N, class T> static inline void pred(fx::Ctx& fx, int which_set) { PJob j{N, sizeof(Tensor<bool, N>), sizeof(Tensor<T, N>), sizeof(T), &PThunk<N, T>::call}; run_pred(fx, j, which_set); }
 
 // ---------------------------------------------------------------------------------------------------------------
 // tolerance predicates: data whose relevant differences are exactly 0 or >= 1
